@@ -294,7 +294,7 @@ def check_property(prop, tier):
     # Same idea for the VM properties: when a function of theirs can no longer be decided (lost anchor, text outside
     # the dialect), the small program corpus runs on the real quiv binary built from this tree.  A program that
     # misbehaves is a violation with a replayable input; none found leaves the property undecided (exit 2).
-    if prop in ("C06", "C13", "C16") and not violations:
+    if prop in ("C05", "C06", "C13", "C16") and not violations:
         und_units = [u for u in units if any(("does not compile" in x or x.startswith("extract")) for x in results[u].infra)
                      or any(ob.get("kind") == "fn" and ob.get("status") == "undecided" and _selected(spec, u, ob.get("qual")) for ob in results[u].obligations.values())]
         if und_units:
